@@ -16,6 +16,7 @@ import (
 	"rscheck/driver"
 	"rscheck/grammar"
 	"rscheck/pat"
+	"rscheck/rules/arith"
 	"rscheck/rules/c01"
 )
 
@@ -30,7 +31,9 @@ var Def = driver.PropDef{
 		"R4 element expansion (per encoding: the payload grammar read after the type byte equals the parser's grammar of C01, and each element is sent with the right command and argument order: RPUSH key elem, SADD key member, HSET key field value with the field read first, ZADD key score member with the member read first, SET key value); " +
 		"R5 batch/flush pairing (count++ per Send, flushAndCheckReply(c,count) at 100 and on the last element or after each inner list, count reset; flushAndCheckReply flushes, then receives exactly count replies and fails on the first error); " +
 		"R6 error discipline of every c.Do in the three functions (reply error bound, tested, non-nil edge reaches an error exit); " +
-		"R7 index guards (every s[i] in CompareVersion is reachable only when i < len(s)).",
+		"R7 index guards (every s[i] in CompareVersion is reachable only when i < len(s)); " +
+		"R9 the entry fields the routes consume (ExpireAt, DB, chunk bookkeeping) are produced by the parser as C01.R4/R5 require (same rules, re-run here); " +
+		"R8 the compact-encoding decoders used by the element route (pkg/rdb ReadZiplistEntry, ReadZipmapItem, ...) agree with their sibling copies in the cupcake decoder on every mask, shift, width and sign conversion.",
 	NotDecided: "equality of the resulting logical value for every payload (ziplist/intset/zipmap integer decoding is value-level), score formatting, hash-tag replacement and the UCloud key slicing, errors of pipelined c.Send calls (redigo reports them on the following Flush/Receive, which R5 ties to every batch).",
 	Trusted:    []string{"go/parser, go/types, go/cfg (x/tools v0.29.0)", "redigo Conn semantics (Send buffers, Flush/Receive report errors)", "reference grammar shared with C01"},
 	Run:        Run,
@@ -79,6 +82,12 @@ func Run(c *core.Ctx) {
 	r4r5(c, big, ql, fl)
 	r6(c, rre, big, ql)
 	r7(c)
+	// R8: the element route decodes ziplist/zipmap payloads with pkg/rdb's copies of the
+	// compact-encoding decoders; they must agree with the decoder's copies
+	arith.CheckSiblings(c, "R8.siblings")
+	// R9: what the restore routes consume from the parser (ExpireAt incl. the seconds*1000
+	// scaling, DB, RealMemberCount / NeedReadLen of chunked hashes) is bound as C01 requires
+	c01.EntryRules(c)
 }
 
 // policyArm finds the cfg block of `case "<label>":` in a switch over
@@ -231,6 +240,32 @@ func r1r2r3(c *core.Ctx, rre, big, ql *core.Fn) {
 			}
 			c.Check("R1.route", "restore/"+strings.ToLower(opt.name), restore[0].Node().Pos(), okO, "the "+opt.name+" hint is appended as keyword then value, only when non-zero")
 		}
+	}
+
+	// the replies RESTORE's error classification must recognise (Redis 2.8 and >= 3.0 busy-key replies, payload rejection)
+	seen := map[string]bool{}
+	core.Inspect(body, func(n ast.Node) bool {
+		if call, ok := n.(*ast.CallExpr); ok {
+			if b := pat.Expr("strings.Contains(_err.Error(), _s)").Match(info, call, nil); b != nil {
+				if s, ok := core.StringConst(info, b["_s"].(ast.Expr)); ok {
+					seen[s] = true
+				}
+			}
+		}
+		return true
+	})
+	for _, want := range []struct{ s, why string }{
+		{"Target key name is busy", "the busy-key reply of Redis 2.8 targets (\"ERR Target key name is busy.\")"},
+		{"BUSYKEY Target key name already exists", "the busy-key reply of Redis >= 3.0 targets"},
+		{"Bad data format", "the reply of a target that rejects the payload format"},
+	} {
+		okS := false
+		for s := range seen {
+			// a shorter needle that is a substring of the real reply still matches it
+			okS = okS || (s != "" && strings.Contains(want.s, s))
+		}
+		c.Check("R1.route", "restore/reply/"+strings.ReplaceAll(want.s, " ", "-"), restore[0].Node().Pos(), okS,
+			"the RESTORE error classification must recognise "+want.why+"; otherwise the key-exists policy / fallback is skipped and the restore fails or leaves the old value")
 	}
 
 	// ---- R2 TTL
